@@ -172,6 +172,8 @@ pub enum Operation {
 pub struct Session {
   pub graph: ModuleGraph,
   pub locker: LockerState,
+  /// state of the (stateful) npm resolver across operations
+  pub npm_known_reqs: Rc<RefCell<std::collections::BTreeSet<String>>>,
 }
 
 impl Session {
@@ -198,7 +200,11 @@ impl Session {
         package_specifiers: reqs.iter().map(|(r, v)| (r, v.as_str())),
       });
     }
-    Session { graph, locker }
+    Session {
+      graph,
+      locker,
+      npm_known_reqs: Default::default(),
+    }
   }
 }
 
@@ -262,6 +268,7 @@ pub fn run_op(
     sim: sim.clone(),
     cfg: world.npm.clone(),
     calls: npm_calls.clone(),
+    known_reqs: session.npm_known_reqs.clone(),
   };
   let reporter = SimReporter {
     seq: sim.seq.clone(),
